@@ -232,7 +232,14 @@ pub fn mutate(s: &mut Source, cfg: &TermCfg, u: &Term) -> Term {
             Term::Cons(h, tl) => replace_at(u, &p, &Term::cons((**tl).clone(), (**h).clone())),
             Term::Cmp(k, a) => {
                 let nk = match k {
-                    Kind::Pair => Kind::Duo,
+                    Kind::Pair => {
+                        if cfg.kinds.contains(&Kind::Pair2) {
+                            Kind::Pair2
+                        } else {
+                            Kind::Duo
+                        }
+                    }
+                    Kind::Pair2 => Kind::Duo,
                     Kind::Duo => Kind::Tuple,
                     Kind::Tuple => Kind::Rec,
                     Kind::Rec => Kind::Pair,
